@@ -87,6 +87,71 @@ theorem foldl_maxStep_ge (xs : List Nat) (m : Nat) (hm : isNaN b32 m = false) (h
     · omega
     · exact h3 y hy
 
+/-! ## NaN: a comparison with a NaN is false, so the step keeps the accumulator -/
+
+theorem minStep_nan (m x : Nat) (h : isNaN b32 x = true ∨ isNaN b32 m = true) : minStep m x = m := by
+  unfold minStep lt
+  rcases h with h | h <;> simp [h]
+
+theorem maxStep_nan (m x : Nat) (h : isNaN b32 x = true ∨ isNaN b32 m = true) : maxStep m x = m := by
+  unfold maxStep gt lt
+  rcases h with h | h <;> simp [h]
+
+/-- a NaN accumulator never changes -/
+theorem foldl_step_nan_acc (step : Nat → Nat → Nat)
+    (hnan : ∀ m x, isNaN b32 x = true ∨ isNaN b32 m = true → step m x = m)
+    (xs : List Nat) (m : Nat) (hm : isNaN b32 m = true) : xs.foldl step m = m := by
+  induction xs with
+  | nil => rfl
+  | cons x xs ih => rw [List.foldl_cons, hnan m x (Or.inr hm), ih]
+
+/-- NaN elements are skipped -/
+theorem foldl_step_filter_nan (step : Nat → Nat → Nat)
+    (hnan : ∀ m x, isNaN b32 x = true ∨ isNaN b32 m = true → step m x = m)
+    (xs : List Nat) (m : Nat) :
+    xs.foldl step m = (xs.filter (fun x => !isNaN b32 x)).foldl step m := by
+  induction xs generalizing m with
+  | nil => rfl
+  | cons x xs ih =>
+    by_cases hx : isNaN b32 x = true
+    · rw [List.foldl_cons, hnan m x (Or.inl hx), ih]
+      simp [hx]
+    · have hx' : isNaN b32 x = false := by simpa using hx
+      rw [List.foldl_cons, ih]
+      simp [hx']
+
+/-! ## outputs after every `Accum` = final states of the prefixes -/
+
+theorem runAgg_prefix {σ ο : Type} (accum : σ → Batch → Except String σ) (out : σ → ο)
+    (bs : List Batch) (s : σ) (os : List ο) (h : runAgg accum out s bs = .ok os) :
+    os.length = bs.length ∧
+    ∀ i, i < bs.length → ∃ si, finalState accum s (bs.take (i + 1)) = .ok si ∧ os[i]? = some (out si) := by
+  induction bs generalizing s os with
+  | nil =>
+    simp only [runAgg, Except.ok.injEq] at h
+    subst h
+    exact ⟨rfl, fun i hi => by cases hi⟩
+  | cons b bs ih =>
+    rw [runAgg] at h
+    cases ha : accum s b with
+    | error e => rw [ha] at h; cases h
+    | ok s1 =>
+      rw [ha] at h
+      simp only [] at h
+      cases hr : runAgg accum out s1 bs with
+      | error e => rw [hr] at h; cases h
+      | ok os' =>
+        rw [hr] at h
+        simp only [Except.ok.injEq] at h
+        subst h
+        obtain ⟨hl, hi⟩ := ih s1 os' hr
+        refine ⟨by simp [hl], fun i hlt => ?_⟩
+        cases i with
+        | zero => exact ⟨s1, by simp [finalState, ha], by simp⟩
+        | succ i =>
+          obtain ⟨si, h1, h2⟩ := hi i (by simpa using hlt)
+          exact ⟨si, by simp only [List.take_succ_cons, finalState, ha]; exact h1, by simpa using h2⟩
+
 /-! ## the accumulators over a split into batches -/
 
 def images (ty : ColType) (vss : List (List Int)) : List Nat := vss.flatten.map (toF32 ty)
